@@ -92,6 +92,8 @@ SITE_ALLOW = {
         (2, "buffers[v].as_ref(): slots are Some outside write_field (R2)"),
     ("AdtSerializer<Output>::write_ordered_chunks", "Option<T>::unwrap"):
         (1, "buffers[..].as_ref(): slots are Some outside write_field (R2)"),
+    ("AdtSerializer<Output>::finish", "Option<T>::unwrap"):
+        (1, "buffers[..].as_ref() while writing the chunks: slots are Some outside write_field (R2)"),
     ("AdtSerializer<Output>::write_field", "<Vec<T, A> as Index<I>>::index"): (0, ""),
     ("AdtSerializer<Output>::write_field", "<Vec<T, A> as IndexMut<I>>::index_mut"):
         (2, "buffers[chunk]: chunk = field_generations[name] <= metadata.version and buffers has version+1 slots "
